@@ -190,6 +190,8 @@ def rule_init_complete(ctx, fl):
 def run(ctx):
     for fl in flavours(ctx):
         ctx.unit = fl
+        ctx.doc('C07.6', 'native API forwarding: each public entry point of this property reaches the implementation of the same name with its parameters in order and returns its result (sibling slips such as trylock -> lock, signal -> broadcast, swapped arguments)')
+        lib.native_forwarding(ctx, 'C07.6', fl, lambda n: n.startswith(('myth_join_counter_', 'myth_join_counterattr_')), floor=4)
         rule_init_complete(ctx, fl)
         v = ctx.view(NATIVE, roots=['myth_join_counter_wait_body', 'myth_join_counter_dec_body',
                                     'myth_join_counter_init_body', 'calc_bits'],
@@ -202,6 +204,8 @@ def run(ctx):
 
 SYNC = 'src/myth_sync_func.h'
 MUTANTS = [
+    {'name': 'native myth_join_counter_dec forwards to wait', 'expect': 'C07.6',
+     'edits': [('src/myth_if_native.c', "  return myth_join_counter_dec_body(jc);", "  return myth_join_counter_wait_body(jc);")]},
     {'name': 'wake chain links behind a NULL tail (sweep M0634)', 'expect': 'C07.5',
      'edits': [(SYNC, "    to_wake->env = env;\n    to_wake->next = 0;\n    if (to_wake_tail) {\n      to_wake_tail->next = to_wake;", "    to_wake->env = env;\n    to_wake->next = 0;\n    if (!(to_wake_tail)) {\n      to_wake_tail->next = to_wake;")]},
     {'name': 'wake-many releases one element more than it collected (sweep M0633)', 'expect': 'C07.5',
